@@ -10,7 +10,7 @@ From Coq Require Import List Arith Lia PeanoNat Bool ZArith QArith Qcanon.
 From PV Require Import Base.Semiring Base.Ravel Base.FinSum Base.RefFactor
   C04.Tensor C04.TensorFacts C04.Model C04.Spec C04.ProofsProd C04.ProofsMarg C04.ProofsAlg C04.ProofsStore C04.ProofsNamed
   C04.ProofsReduce C04.ProofsAlign C04.ProofsDivSum C04.ProofsAlg2 C04.ProofsNorm C04.ProofsEq C04.ProofsDot
-  C04.MaxCsr C04.ProofsEqAll C04.ProofsEqNamed C04.ProofsMaxAny C04.ProofsHash.
+  C04.MaxCsr C04.ProofsEqAll C04.ProofsEqNamed C04.ProofsMaxAny C04.ProofsHash C04.ProofsPower.
 Import ListNotations.
 Local Close Scope Qc_scope.
 Local Close Scope Q_scope.
@@ -409,3 +409,18 @@ Theorem C04_hash_eq_inconsistent :
     factor_eqb 0%Qc 0%Qc f g = Ok true /\ hash_key hv f <> hash_key hv g.
 Proof. exact hash_eq_inconsistent. Qed.
 Print Assumptions C04_hash_eq_inconsistent.
+
+(* products count MULTIPLICITY: the factor_product fold (C04_factor_product_fold has no distinctness hypothesis) of a factor
+   listed n+1 times is its (n+1)-th pointwise power, and a value-equal member (same meaning, any axis order) counts again;
+   likewise einsum's term (C04_einsum_meaning) is the product over the operand LIST *)
+Theorem C04_factor_product_power (R : csr) (card : var -> nat) (f : dfactor R) n os h a :
+  dwf card f -> fp_go R f (repeat f n) os = Ok h -> valid card a ->
+  deval zero h a = prod_list (repeat (deval zero f a) (S n)).
+Proof. exact (factor_product_power R card f n os h a). Qed.
+Print Assumptions C04_factor_product_power.
+Theorem C04_factor_product_counts_equal_members (R : csr) (card : var -> nat) (f f' g : dfactor R) o1 o2 h a :
+  dwf card f -> dwf card f' -> dwf card g -> same_meaning R card f f' ->
+  fp_go R f [g; f'] [o1; o2] = Ok h -> valid card a ->
+  deval zero h a = mul (mul (deval zero f a) (deval zero g a)) (deval zero f a).
+Proof. exact (factor_product_counts_equal_members R card f f' g o1 o2 h a). Qed.
+Print Assumptions C04_factor_product_counts_equal_members.
